@@ -26,6 +26,9 @@ type Script struct {
 	// after TrickleDelay of virtual time.
 	TrickleFrom  int
 	TrickleDelay time.Duration
+	// TrickleBurst > 1: that many bytes per delayed read instead of one (as far as the
+	// reader's buffer takes them).
+	TrickleBurst int
 }
 
 type EndKind int
@@ -246,7 +249,11 @@ func (c *memConn) Read(p []byte) (int, error) {
 			if c.deadline > 0 && c.rec.Virtual >= c.deadline {
 				return 0, &net.OpError{Op: "read", Net: "tcp", Err: timeoutErr{}}
 			}
-			n = 1
+			if burst := c.sc.TrickleBurst; burst > 1 && burst < n {
+				n = burst
+			} else if burst <= 1 {
+				n = 1
+			}
 		} else if c.sc.TrickleFrom >= 0 && c.off+n > c.sc.TrickleFrom {
 			n = c.sc.TrickleFrom - c.off
 		}
